@@ -10,7 +10,7 @@ import refenc
 from hcommon import JobResult
 from interp import Panic, Unsupported
 from jobs_encode import strip_original, written_registry
-from lazy import Policy
+from lazy import InputNode, Policy
 from values import (UNIT, Adt, Arr, BoxV, Cell, FnV, Lazy, Ref, Sc, SetV, Tup, VecV, bv, deep_clone, is_sym)
 
 SIG_CTX = {"CoseSignature": "Signature", "CoseSign1": "Signature1", "CounterSignature": "CounterSignature"}
@@ -367,16 +367,18 @@ def free_structure_job(eng, tables, prop, which, deadline, max_paths=None, initi
 
     def gen_protected(ctx, name):
         import jobs_encode
-        k = ctx.choose(5, "prot-kind@" + name)
+        k = ctx.choose(6, "prot-kind@" + name)
         none = Adt("Option", "None", [])
         if k == 0:      # decoded from the wire: arbitrary retained bytes, arbitrary parsed view
             hdr = header_palette(ctx, eng, tables, name + ".w")
             od = Adt("Option", "Some", [ctx.fresh_opaque(name + ".wire", "vec")])
             ctx.side.setdefault("kinds", []).append("w")
-        else:           # built: the four palette headers
+        else:           # built: the four palette headers, and one that has no encoding
             hdr = header_palette_k(ctx, eng, tables, name + ".b", k - 1)
             od = none
             ctx.side.setdefault("kinds", []).append(str(k - 1))
+            if k - 1 == 4:
+                ctx.side["unencodable"] = True
         return jobs_encode.mk_struct(I, "ProtectedHeader", original_data=od, header=hdr)
 
     def harness(ctx):
@@ -393,25 +395,30 @@ def free_structure_job(eng, tables, prop, which, deadline, max_paths=None, initi
             keep_body, keep_sign = deep_clone(body), deep_clone(sign) if sign is not None else None
             out = ctx.call("sig_structure_data", [ctx_enum(eng, "SignatureContext", c), body, opt,
                                                   slice_ref(aad), slice_ref(payload)])
-            exp = expected_structure(ctx, eng, SIG_CTX[c], [keep_body] + ([keep_sign] if has_sign else []),
-                                     [aad, payload])
+            exp = None if ctx.side.get("unencodable") else \
+                expected_structure(ctx, eng, SIG_CTX[c], [keep_body] + ([keep_sign] if has_sign else []), [aad, payload])
         elif which == "mac":
             names = list(MAC_CTX)
             ci = ctx.choose(2, "context")
             c = names[ci]
             keep_body = deep_clone(body)
             out = ctx.call("mac_structure_data", [ctx_enum(eng, "MacContext", c), body, slice_ref(aad), slice_ref(payload)])
-            exp = expected_structure(ctx, eng, MAC_CTX[c], [keep_body], [aad, payload])
+            exp = None if ctx.side.get("unencodable") else expected_structure(ctx, eng, MAC_CTX[c], [keep_body], [aad, payload])
         else:
             names = list(ENC_CTX)
             ci = ctx.choose(5, "context")
             c = names[ci]
             keep_body = deep_clone(body)
             out = ctx.call("enc_structure_data", [ctx_enum(eng, "EncryptionContext", c), body, slice_ref(aad)])
-            exp = expected_structure(ctx, eng, ENC_CTX[c], [keep_body], [aad])
+            exp = None if ctx.side.get("unencodable") else expected_structure(ctx, eng, ENC_CTX[c], [keep_body], [aad])
         kinds = ctx.side.get("kinds", [])
         ctx.side["cmd"] = "ops free_structures %s %d %s %s" % (which, ci, kinds[0], kinds[1] if len(kinds) > 1 else "-")
         ctx.side["lens"] = (aad.opaque.len, payload.opaque.len)
+        if ctx.side.get("unencodable"):
+            # the call returned although a protected header has no encoding: whatever it produced is
+            # not the structure of that header
+            return [("free-unencodable", which + "_structure_data(%s) produced bytes for a protected header that has no "
+                     "encoding (an extra parameter repeats a typed field's label) instead of refusing" % c)]
         try:
             p = check_structure(ctx, out, exp, which + "_structure_data(%s)" % c)
         except refenc.EncodeFault:
@@ -476,6 +483,11 @@ def header_palette_k(ctx, eng, tables, name, k):
         # a label of a typed field would make the header unencodable: builders refuse those
         lab = h.fields[order.index("rest")].elems[0].fields[0].fields[0].v
         ctx.assume(z3.Or(lab < 1, lab > 7))
+    elif k == 4:
+        # alg plus an extra parameter under alg's own label: a header for which no encoding exists
+        h.fields[order.index("alg")] = Adt("Option", "Some", [Adt("RegisteredLabelWithPrivate", "Assigned",
+                                                                 [Sc("isize", -7, enum="Algorithm")])])
+        h.fields[order.index("rest")] = VecV([Tup([Adt("Label", "Int", [Sc("i64", 1)]), Adt("Value", "Null", [])])], None, "vec")
     return h
 
 
@@ -526,7 +538,7 @@ def jobs_encode_mod():
 
 
 def history_job(eng, tables, prop, tname, steps, deadline, max_paths=None, initial=None, bfs=False, slice_s=None,
-                palette=(0, 1, 2, 3), classes=None):
+                palette=(0, 1, 2, 3), classes=None, wire_template=False):
     """Builder call histories of length <= steps (setters and create/try-create helpers in any
     order), then build -> encode -> decode (Value level, byte level, tagged) -> verify/decrypt with
     the same or a different AAD."""
@@ -535,8 +547,9 @@ def history_job(eng, tables, prop, tname, steps, deadline, max_paths=None, initi
     fam = spec["family"]
     path = PATHS[tname]
     I = eng.impls
-    job = JobResult("history:%s" % tname)
+    job = JobResult("history:%s%s" % (tname, ":wire-template" if wire_template else ""))
     seen = {}
+    tmpl_policy = Policy(max_array=3, max_map=1, max_text=1, max_depth=3, max_total_entries=1, max_total_items=3)
 
     def harness(ctx):
         problems = []
@@ -582,7 +595,19 @@ def history_job(eng, tables, prop, tname, steps, deadline, max_paths=None, initi
                 rec = Recorder(ctx, "creator", result)
                 args = [b]
                 sigv = None
-                if fam == "sign":
+                if fam == "sign" and wire_template:
+                    # the signature template is a COSE_Signature decoded from the wire (its protected
+                    # header keeps whatever bytes it arrived in)
+                    from interp import Infeasible
+                    tnode = InputNode("tmpl%d" % i, tmpl_policy)
+                    ctx.inputs["tmpl%d" % i] = tnode
+                    rt = ctx.call("<sign::CoseSignature as AsCborValue>::from_cbor_value", [Lazy(tnode)])
+                    if rt.variant != "Ok":
+                        raise Infeasible("template not accepted")
+                    sigv = rt.fields[0]
+                    ctx.side.setdefault("templates", {})[i] = tnode
+                    args.append(sigv)
+                elif fam == "sign":
                     import jobs_encode
                     sigv = jobs_encode.mk_struct(I, "CoseSignature",
                                                  protected=jobs_encode.mk_struct(I, "ProtectedHeader", original_data=Adt("Option", "None", []),
@@ -590,6 +615,7 @@ def history_job(eng, tables, prop, tname, steps, deadline, max_paths=None, initi
                                                  unprotected=refdec.RefDec(ctx, I, tables).empty_header(),
                                                  signature=VecV([], None, "vec"))
                     args.append(sigv)
+                sig_prot = deep_clone(f_(I, sigv, "protected")) if sigv is not None else None
                 name = {"sign1": "create_signature", "sign": "add_created_signature", "mac": "create_tag",
                         "enc": "create_ciphertext"}[fam]
                 if detached_m:
@@ -630,7 +656,7 @@ def history_job(eng, tables, prop, tname, steps, deadline, max_paths=None, initi
                     pay = f_(I, cur, "payload")
                     tail_p = refenc.deref(args[1 if fam == "sign1" else 2]) if detached_m else \
                         (pay.fields[0] if pay.variant == "Some" else VecV([], None, "vec"))
-                    prots = [curp] if fam == "sign1" else [curp, f_(I, sigv, "protected")]
+                    prots = [curp] if fam == "sign1" else [curp, deep_clone(sig_prot)]
                     ctext = SIG_CTX["CoseSign1"] if fam == "sign1" else SIG_CTX["CoseSignature"]
                     want = expected_structure(ctx, eng, ctext, prots, [aad, tail_p])
                 elif fam == "mac":
@@ -752,12 +778,24 @@ def history_job(eng, tables, prop, tname, steps, deadline, max_paths=None, initi
         job.findings.append({"property": prop, "key": key, "what": "%s: %s" % (tname, what), "op": "ops",
                              "type": tname, "input_hex": "",
                              "predicted": "PANIC" if cls.startswith("panic") else "MISMATCH", "compare": "startswith",
-                             "command": "ops history %s %s" % (tname, history_spec(ctx)),
+                             "command": "ops history %s %s%s" % (tname, history_spec(ctx), template_spec(ctx)),
                              "decisions": [list(d) for d in ctx.trace][:60]})
 
     hcommon.run_paths(eng, job, harness, deadline, max_paths, on_leaf, initial=initial, bfs=bfs, slice_s=slice_s)
     job.extra["finding_counts"] = seen
     return job
+
+
+def template_spec(ctx):
+    """wire-template histories: the concrete bytes of each decoded signature template"""
+    tm = ctx.side.get("templates")
+    if not tm:
+        return ""
+    m = ctx.model()
+    if m is None:
+        return ""
+    reg = {}
+    return " " + ",".join("%d:%s" % (i, concrete.encode(concrete.node_to_tree(m, n, reg)).hex()) for i, n in sorted(tm.items()))
 
 
 def history_spec(ctx):
